@@ -533,8 +533,13 @@ func runC06(c *Ctx) {
 			}
 			n++
 			closeK := c.stateConsts()["stateClose"]
+			failed := c.parseFailureField(parse)
 			ok := fi.HasFact(r, func(ft ir.Fact) bool {
 				if mentions(ft.Cond, ".ReadLimit") {
+					return true
+				}
+				// the record of an earlier failure (written only when Parse returns an error) is a terminal state too
+				if x, isNil, isTest := ir.NilTest(ft.Cond, ft.Truth); isTest && !isNil && failed != "" && c.P.LoadedField(ir.Resolve(x)) == failed {
 					return true
 				}
 				cmp, isCmp := ir.DecodeIntCmp(ft.Cond)
